@@ -375,7 +375,11 @@ def k_cli(run, case):
     run.hit("evo_traj runs with alignment to a reference judged")
 
 
-KINDS = {"align": k_align, "degenerate": k_degenerate, "via_align": k_via_align, "via_api": k_via_api, "cli": k_cli}
+from vmon import threads as _threads
+k_threads = _threads.k_evaluation('umeyama', 'Umeyama alignment', 'threads:umeyama-not-reentrant')
+
+
+KINDS = {"threads": k_threads, "align": k_align, "degenerate": k_degenerate, "via_align": k_via_align, "via_api": k_via_api, "cli": k_cli}
 
 
 def main(run):
@@ -390,6 +394,8 @@ def main(run):
         k_degenerate(run, run.case("degenerate", 10**6 + i, **dcorp[i]))
     for i in run.mine(n):
         k_align(run, run.case("align", i))
+    for i in run.mine({"quick": 12, "thorough": 200}[run.tier]):
+        k_threads(run, run.case("threads", i))
     for i in run.mine(n // 8):
         k_degenerate(run, run.case("degenerate", i))
     for i in run.mine(n // 8):
@@ -402,7 +408,7 @@ def main(run):
     for i in run.mine({"quick": 60, "thorough": 1500}[run.tier]):
         k_cli(run, run.case("cli", 10**6 + i, tool=["ape", "rpe"][i % 2],
                             force_options=[["n_to_align"], ["n_to_align", "scale_only"]][(i // 2) % 2]))
-    run.need("evo_ape / evo_rpe runs with alignment options judged", "evo_traj runs with alignment to a reference judged", "requested alignment reaches umeyama_alignment exactly once", "umeyama: proper rotation", "umeyama: optimal vs Horn",
+    run.need("concurrent rounds: Umeyama alignment", "evo_ape / evo_rpe runs with alignment options judged", "evo_traj runs with alignment to a reference judged", "requested alignment reaches umeyama_alignment exactly once", "umeyama: proper rotation", "umeyama: optimal vs Horn",
              "umeyama: optimal vs perturbation", "noise-free: rotation reproduced",
              "equivariance: rotation", "exactly degenerate set refused",
              "umeyama: unequal shapes refused", "umeyama@align: optimal vs Horn",
